@@ -472,6 +472,9 @@ def run(prog, check):
         check.saw(cl_)
         for x_ in ast.walk(cl_.node):
             if isinstance(x_, ast.Subscript) and isinstance(x_.slice, ast.Slice) and isinstance(x_.ctx, ast.Load):
+                par_ = getattr(x_, '_parent', None)
+                if isinstance(par_, ast.Compare) or (isinstance(par_, ast.Call) and x_ in par_.args):
+                    continue        # a slice that is only looked at (`s[:1] == '+'`) cuts nothing
                 sl_ = x_.slice
                 ok_sl = sl_.upper is None and sl_.step is None and isinstance(sl_.lower, ast.Constant) and sl_.lower.value == 1
                 check.ob('C03.R2', '%s::cleanup-cuts-one-leading-character(%s)' % (cl_.key, unparse(x_)), ok_sl, '%s:%d' % (cl_.module.rel, x_.lineno),
